@@ -25,6 +25,8 @@ established the code is left as it is (the recognisers then see an unknown shape
           includes the whole of a loop that contains a use and starts after the store).  If <rhs> contains a call the
           name must be used exactly once, not inside a loop / lambda / comprehension, and additionally no call other
           than numpy / builtin pure ones and no store related in either direction may lie in between.
+ sink     `if a: ..; r = A  elif b: ..; r = B  else: raise ..` followed by `T = r` (r used nowhere else, T not mentioned in
+          the tree)  ->  the branches assign T directly (what inlining a helper with tail returns leaves behind).
  counter  `i = 0` .. `for t in it: body; i += 1` (i stored nowhere else, not read after the loop, no `continue`)
           ->  `for i, t in enumerate(it): body`.
  unroll   `for x in (<constants>): body`  (x not stored in the body, no break/continue left, no else) -> the body once
@@ -206,6 +208,7 @@ class Normaliser:
             self._guards(fn)
             self._fold(fn)
             self._alias(fn)
+            self._sink(fn)
             self._enumerate(fn)
             self._unroll(fn)
             self._fold(fn)
@@ -395,7 +398,13 @@ class Normaliser:
             result = body[-1].value
             body = body[:-1]
         if any(isinstance(n, ast.Return) for st in body for n in ast.walk(st)):
-            return None
+            # several returns, each in TAIL position of an if / elif / else tree: the tree is kept and every
+            # `return e` becomes `<result> = e`
+            res = f"result__t{next(_fresh)}"
+            tree = self._tail(list(c.body), res)
+            if tree is None:
+                return None
+            body, result = tree, ast.Name(res, ast.Load())
         k = next(_fresh)
         locs = stored_names(c) - ({"self"} if is_method else set())
         ren = {x: f"{x}__h{k}" for x in locs}
@@ -407,6 +416,35 @@ class Normaliser:
         else:
             body = holder.body
         return body, result, ren
+
+    def _tail(self, stmts, res):
+        stmts = list(stmts)
+        for i, st in enumerate(stmts[:-1]):
+            if any(isinstance(n, ast.Return) for n in ast.walk(st)):
+                # a guard clause `if c: ..; return e` followed by the rest == if / else
+                if isinstance(st, ast.If) and not st.orelse and st.body and isinstance(st.body[-1], (ast.Return, ast.Raise)):
+                    st.orelse = stmts[i + 1:]
+                    stmts = stmts[:i + 1]
+                    break
+                return None
+        if not stmts:
+            return [ast.Assign([ast.Name(res, ast.Store())], ast.Constant(None))]
+        last = stmts[-1]
+        head = stmts[:-1]
+        if any(isinstance(n, ast.Return) for st in head for n in ast.walk(st)):
+            return None
+        if isinstance(last, ast.Return):
+            return head + [ast.Assign([ast.Name(res, ast.Store())], last.value or ast.Constant(None))]
+        if isinstance(last, ast.Raise):
+            return stmts
+        if isinstance(last, ast.If):
+            a, b = self._tail(last.body, res), self._tail(last.orelse, res)
+            if a is None or b is None:
+                return None
+            return head + [ast.If(last.test, a, b)]
+        if any(isinstance(n, ast.Return) for n in ast.walk(last)):
+            return None
+        return stmts + [ast.Assign([ast.Name(res, ast.Store())], ast.Constant(None))]
 
     def _inline(self, fn):
         # 1. expression level: callee == `return <expr>` and simple arguments
@@ -657,6 +695,59 @@ class Normaliser:
                     return False
         return True
 
+    # -- `if ..: r = A  elif ..: r = B  else: raise` ; `T = r`   ->   the branches assign T
+    def _sink(self, fn):
+        for owner, f, b in list(blocks_of(fn)):
+            for k in range(len(b) - 1):
+                tree, cp = b[k], b[k + 1]
+                if not (isinstance(tree, ast.If) and isinstance(cp, ast.Assign) and len(cp.targets) == 1
+                        and isinstance(cp.value, ast.Name) and path_of(cp.targets[0]) is not None
+                        and not isinstance(cp.targets[0], ast.Subscript)):
+                    continue
+                r = cp.value.id
+                names = [n for n in ast.walk(fn) if isinstance(n, ast.Name) and n.id == r]
+                loads = [n for n in names if isinstance(n.ctx, ast.Load)]
+                if len(loads) != 1 or loads[0] is not cp.value or r in params_of(fn):
+                    continue
+                leaves = self._tail_stores(tree, r)
+                if leaves is None or len(leaves) != len(names) - 1 or not leaves:
+                    continue
+                tp = path_of(cp.targets[0])
+                # nothing in the tree may read or store the target (it is now assigned earlier: at the end of a branch,
+                # after which nothing else of the tree runs -- so only the tests / earlier statements matter: none may
+                # mention it at all)
+                if any(isinstance(n, (ast.Name, ast.Attribute)) and path_of(n) is not None
+                       and (is_prefix(tp, path_of(n)) or is_prefix(path_of(n), tp)) and not (len(path_of(n)) < len(tp))
+                       for n in ast.walk(tree)):
+                    continue
+                for st in leaves:
+                    st.targets = [copy.deepcopy(cp.targets[0])]
+                del b[k + 1]
+                self.log.append(f"sink:{r}")
+                return self._sink(fn)
+
+    def _tail_stores(self, st, r):
+        """The statements `r = e` of an if-tree when each of them is the last statement of its branch and every branch
+        ends with one or with a raise; None otherwise."""
+        out = []
+        for body in (st.body, st.orelse):
+            if not body:
+                return None
+            last = body[-1]
+            if isinstance(last, ast.Raise):
+                pass
+            elif isinstance(last, ast.If):
+                sub = self._tail_stores(last, r)
+                if sub is None:
+                    return None
+                out += sub
+            elif (isinstance(last, ast.Assign) and len(last.targets) == 1 and isinstance(last.targets[0], ast.Name)
+                  and last.targets[0].id == r):
+                out.append(last)
+            else:
+                return None
+        return out
+
     # -- manual counter -> enumerate
     def _enumerate(self, fn):
         for owner, f, b in list(blocks_of(fn)):
@@ -707,10 +798,18 @@ class Normaliser:
             for k, st in enumerate(b):
                 if not (isinstance(st, ast.For) and isinstance(st.target, ast.Name) and not st.orelse
                         and isinstance(st.iter, (ast.Tuple, ast.List)) and len(st.iter.elts) <= 16
-                        and all(self._is_literal(e) for e in st.iter.elts)):
+                        and all(self._is_literal(e) or is_simple(e) for e in st.iter.elts)):
                     continue
                 x = st.target.id
                 inner = [n for s in st.body for n in ast.walk(s)]
+                # elements that are not literals are READ when the tuple is built; reading them one by one instead is
+                # the same as long as the body stores to none of them (attribute reads are taken to be effect-free)
+                elt_paths = [path_of(e) for e in st.iter.elts if not self._is_literal(e)]
+                if any(p is None for p in elt_paths):
+                    continue
+                if any(isinstance(n, (ast.Name, ast.Attribute, ast.Subscript)) and isinstance(n.ctx, (ast.Store, ast.Del))
+                       and (path_of(n) is None or any(is_prefix(path_of(n), p) for p in elt_paths)) for n in inner):
+                    continue
                 if any(isinstance(n, (ast.Break, ast.Continue)) for n in inner):
                     continue
                 if any(isinstance(n, ast.Name) and n.id == x and not isinstance(n.ctx, ast.Load) for n in inner):
@@ -954,6 +1053,17 @@ def _chk(first, start=0.0):
 def _twice(v):
     return v + v
 
+def _pick(box, v):
+    if v is None:
+        raise ValueError("none")
+    if v == 0:
+        box["zero"] = 1
+        return "zero"
+    elif v < 0:
+        return "neg"
+    box["pos"] = v
+    return v * 2
+
 def _fill(box, key, val):
     box[key] = val
     return len(box)
@@ -1081,6 +1191,23 @@ class Box:
     def s_value_helper(self, v):                        # expect: inline:_fill
         n = _fill(self.items, "k", v)
         return (n, self.items)
+    def s_tail_helper(self, v):                         # expect: inline:_pick
+        r = _pick(self.items, v)
+        return (r, self.items)
+    def s_sink(self, v):                                # expect: sink:r
+        if v is None:
+            raise ValueError("none")
+        elif v:
+            self.log.append("t")
+            r = [v]
+        else:
+            r = []
+        self.items = r
+        return (self.items, self.log)
+    def s_tuple_loop(self):                             # expect: unroll:o
+        for o in (self.items, self.log):
+            o.clear()
+        return (self.items, self.log)
     def s_expr_helper(self, v):                         # expect: inline-expr:_twice
         return _twice(v) + 1
     def s_method_helper(self):                          # expect: inline:_reset_items
@@ -1098,7 +1225,7 @@ _INPUTS = {
     "s_unroll": [(True,), (False,), (0,), ("x",)], "s_chain": [(0,), (1,), (5,), (6,)],
     "s_chain2": [(1, 2), (0, 2), (3, 2), (3, 10)], "s_ifexp": [(0,), (1,), ("",), ([1],)],
     "s_inverted": [(0,), (1,)], "s_counter": [([],), ([5, 6],)], "s_counter_read_after": [([],), ([5, 6],)], "s_fresh_object": [([1, 2],)], "s_match": [(1,), (2,), ("big",), (None,)], "s_early_return": [(True,), (False,)],
-    "s_value_helper": [(7,)], "s_expr_helper": [(2,), ("a",)], "s_method_helper": [()],
+    "s_value_helper": [(7,)], "s_tail_helper": [(None,), (0,), (-1,), (4,)], "s_tuple_loop": [()], "s_sink": [(None,), (0,), (3,)], "s_expr_helper": [(2,), ("a",)], "s_method_helper": [()],
     "s_boolfold": [(0,), (1,), ("",), ([],)],
 }
 
